@@ -1,5 +1,5 @@
 // C16 binding for module ExprFaults: nested-expression statements with the k-th allocation failing.
-// stdin:  idx expr form d k      stdout: FAIL idx what   ...   DONE ncases nfail nfired
+// stdin:  idx expr form d k warm      stdout: FAIL idx what   ...   DONE ncases nfail nfired
 // operator new[] / delete[] are replaced: a ledger of live blocks, and while armed the k-th new[] throws std::bad_alloc.
 #include <SQuIDS/SUNalg.h>
 #include <cstdio>
@@ -49,7 +49,12 @@ static std::vector<double> snap(const SU_vector& a) { std::vector<double> c(a.Si
 static double g_scalar = 0;
 static void statement(const std::string& e, const std::string& form, SU_vector* T, void* slot, const SU_vector& a, const SU_vector& b, const SU_vector& h) {
   const double t = 0.7;
-  if (e == "-(a+b)") STMT(-(a + b));
+  if (e == "a") STMT(a);
+  else if (e == "a+b") STMT(a + b);
+  else if (e == "a*2") STMT(a * 2.0);
+  else if (e == "icomm(a,b)") STMT(iCommutator(a, b));
+  else if (e == "a.evolve(h,t)") STMT(a.Evolve(h, t));
+  else if (e == "-(a+b)") STMT(-(a + b));
   else if (e == "-(a-b)") STMT(-(a - b));
   else if (e == "-(a*2)") STMT(-(a * 2.0));
   else if (e == "-icomm(a,b)") STMT(-iCommutator(a, b));
@@ -72,9 +77,9 @@ static void statement(const std::string& e, const std::string& form, SU_vector* 
 
 int main() {
   std::set_terminate(on_terminate);
-  long idx, n = 0, nfail = 0, nfired = 0; std::string e, form; int d, k;
+  long idx, n = 0, nfail = 0, nfired = 0; std::string e, form; int d, k, warm;
   alignas(64) static unsigned char slotmem[sizeof(SU_vector) + 64];
-  while (std::cin >> idx >> e >> form >> d >> k) {
+  while (std::cin >> idx >> e >> form >> d >> k >> warm) {
     n++; cur_idx = idx;
     std::string note;
     {
@@ -92,9 +97,11 @@ int main() {
         refs = g_scalar;
       } catch (std::logic_error&) { printf("BADINPUT %ld\n", idx); return 2; }
       catch (std::exception&) { ref.clear(); note = "unarmed-statement-raised"; }
-      SU_vector::clear_mem_cache();         // empty cache: every allocation of the statement is a real new[]
       SU_vector T = form == "assign-empty" ? SU_vector() : mk(dt, 5);
       auto st = snap(T);
+      SU_vector::clear_mem_cache();         // cold cache: every allocation of the statement is a real new[] ...
+      if (warm == 1) { SU_vector spare(dt); }                                                   // ... or one spare block of the target's dimension
+      if (warm == 2) { std::vector<SU_vector> many; for (int q = 0; q < 40; q++) many.emplace_back(dt); }   // ... or that dimension's cache full
       bool constructed = false, threw = false, other = false;
       fired = false; countdown = k; armed = true;
       try { statement(e, form, &T, slotmem, a, b, h); constructed = (form == "ctor"); }
